@@ -5,6 +5,9 @@
 //!   nat.decode / nat.decodeU <name> <hex> <env> <ty>   any message decoded natively at <name> vs untyped at its
 //!              Candid type (decodeU: element order of vectors ignored, for maps and sets)
 //!   nat.hl     <name> <hex>                             host-limit cases (no claim, counted)
+//!   nat.mirror / nat.mirrorU <name> <rust> <hex> <env> <ty>   the same native decoding against the native decoder mirror
+//!              of the model (lean/CandidModel/Native.lean); <rust> describes the Rust type as a term of its grammar
+//!   nat.mirrorQ <name> <rust> <hex> <env> <ty> <dq> <sq>      … under quotas, at the implementation's own thresholds
 use crate::c02;
 use crate::corpus::{self, Entry};
 use crate::gen;
@@ -154,7 +157,103 @@ pub fn eval(out: &mut Out, op: &str, args: &[&str]) -> Option<String> {
             })
         }
         "nat.hl" => Some("hl".into()),
+        // the native decoder mirror (lean/CandidModel/Native.lean): same message, same Rust type, described as a term
+        // of the mirror's grammar; no oracle here, the model answers for itself
+        "nat.mirror" | "nat.mirrorU" => {
+            let bytes = sexp::unhx(args.get(2)?)?;
+            let dec = e.decode;
+            let unordered = op == "nat.mirrorU";
+            Some(match guarded(move || dec(&bytes)) {
+                Err(_) => "panic".into(),
+                Ok(Err(_)) => "err".into(),
+                Ok(Ok(v)) => format!("ok ({})", if unordered { sorted_canon(&v) } else { sexp::val(&v, true) }),
+            })
+        }
+        "nat.mirrorQ" => {
+            let bytes = sexp::unhx(args.get(2)?)?;
+            let q = |s: &str| if s == "-" { None } else { s.parse::<usize>().ok() };
+            let (dq, sq) = (q(args.get(5)?), q(args.get(6)?));
+            let cfgd = e.decode_cfg;
+            Some(match guarded(move || cfgd(&bytes, dq, sq)) {
+                Err(_) => "panic".into(),
+                Ok(Err(_)) => "err".into(),
+                Ok(Ok(())) => "ok".into(),
+            })
+        }
         _ => None,
+    }
+}
+
+/// the smallest quota (decoding quota if `decoding`, else skipping quota) under which the implementation decodes
+/// `bytes` natively at `e`: the cost the implementation charges, found by bisection
+fn native_threshold(e: &Entry, bytes: &[u8], decoding: bool) -> Option<usize> {
+    let run = |q: usize| {
+        let cfgd = e.decode_cfg;
+        let b = bytes.to_vec();
+        matches!(guarded(move || if decoding { cfgd(&b, Some(q), None) } else { cfgd(&b, None, Some(q)) }), Ok(Ok(())))
+    };
+    let mut hi = 64usize;
+    while !run(hi) {
+        hi = hi.checked_mul(4)?;
+        if hi > (1 << 34) {
+            return None;
+        }
+    }
+    let mut lo = 0usize; // invariant: run(hi), and lo == 0 or !run(lo - 1)
+    while lo < hi {
+        let mid = lo + (hi - lo) / 2;
+        if run(mid) {
+            hi = mid;
+        } else {
+            lo = mid + 1;
+        }
+    }
+    Some(hi)
+}
+
+/// the same message through the native mirror of the model
+fn emit_mirror(ctx: &mut Ctx, e: &Entry, bytes: &[u8], untyped_ok: Option<&IDLValue>) {
+    let (env, ty) = (e.raw_ty)();
+    let (env, ty) = (&env, &ty);
+    // sets and maps drop duplicates natively: outside the mirror (and outside the property)
+    if let Some(u) = untyped_ok {
+        if !(e.no_dups)(u) {
+            ctx.out.stat("mirror:skipped-duplicates");
+            return;
+        }
+    }
+    let op = if is_unordered(&e.name) { "nat.mirrorU" } else { "nat.mirror" };
+    let rd = (e.rdesc)();
+    let common = format!("{}\t{}\t{}\t{}\t{}", e.name, rd, sexp::hx(bytes), sexp::env(env), sexp::ty(ty));
+    ctx.emit(&format!("{op}\t{common}"), true);
+    // the cost accounting of the native path: at the implementation's own thresholds the model must flip too.
+    // Not compared when the message's table declares reference types while the Rust type has named definitions:
+    // skipping a reference value charges the size of the table, which the mirror's skipping function takes from the
+    // merged environment (the header's table plus those names) — a difference of the model's presentation only.
+    let refs_in_table = wire_arg_type(bytes).map_or(true, |(tenv, _)| {
+        tenv.0.iter().any(|(_, t)| matches!(t.as_ref(), TypeInner::Func(_) | TypeInner::Service(_)))
+    });
+    if refs_in_table && !env.0.is_empty() {
+        ctx.out.stat("mirror:quota-skipped-reference-table");
+    } else if ctx.rng.chance(1, 6) {
+        for decoding in [true, false] {
+            let dec = e.decode;
+            let b = bytes.to_vec();
+            if !matches!(guarded(move || dec(&b)), Ok(Ok(_))) {
+                break;
+            }
+            if let Some(t) = native_threshold(e, bytes, decoding) {
+                ctx.out.stat(if decoding { "mirror:decoding-threshold" } else { "mirror:skipping-threshold" });
+                let mut qs = vec![t];
+                if t > 0 {
+                    qs.push(t - 1);
+                }
+                for q in qs {
+                    let (dq, sq) = if decoding { (q.to_string(), "-".to_string()) } else { ("-".to_string(), q.to_string()) };
+                    ctx.emit(&format!("nat.mirrorQ\t{common}\t{dq}\t{sq}"), true);
+                }
+            }
+        }
     }
 }
 
@@ -225,6 +324,10 @@ fn hist(ctx: &mut Ctx) -> String {
 fn emit_decode(ctx: &mut Ctx, e: &Entry, env: &TypeEnv, ty: &Type, bytes: &[u8]) {
     let (b2, e2, t2) = (bytes.to_vec(), env.clone(), ty.clone());
     let untyped = guarded(move || IDLArgs::from_bytes_with_types(&b2, &e2, &[t2]));
+    emit_mirror(ctx, e, bytes, match &untyped {
+        Ok(Ok(u)) => u.args.first(),
+        _ => None,
+    });
     if e.name.starts_with("BoundedVec") {
         // bounded vectors must accept exactly the vectors within their limits
         let within = matches!(&untyped, Ok(Ok(u)) if (e.host_ok)(&u.args[0]));
@@ -236,7 +339,7 @@ fn emit_decode(ctx: &mut Ctx, e: &Entry, env: &TypeEnv, ty: &Type, bytes: &[u8])
     }
     // fixed-size arrays are only compared on messages whose vector has the matching length (the property's
     // quantifier); a message that does not even decode untyped cannot be classified and is left out
-    if e.name.starts_with('[') && !matches!(&untyped, Ok(Ok(_))) {
+    if e.name.contains('[') && !matches!(&untyped, Ok(Ok(_))) {
         ctx.emit(&format!("nat.hl\t{}\t{}", e.name, sexp::hx(bytes)), false);
         return;
     }
